@@ -256,6 +256,11 @@ def validate_events(events, module, scratch, chunk=None, timeout=1500, env=None,
     if chunk is None:
         chunk = max(200, min(20000, (len(events) + MAX_TLC - 1) // MAX_TLC))
     chunks = [events[i:i + chunk] for i in range(0, len(events), chunk)]
+    return validate_chunks(chunks, module, scratch, timeout=timeout, env=env, deque=deque, chunk=chunk)
+
+
+def validate_chunks(chunks, module, scratch, timeout=1500, env=None, deque=False, chunk=None, depth_offset=1):
+    """Same for pre-cut chunks.  With chunk=None the rejected indices are (chunk number, index in chunk)."""
     paths = []
     for k, c in enumerate(chunks):
         p = scratch.path("trace-%s-%d.ndjson" % (module, k))
@@ -268,7 +273,7 @@ def validate_events(events, module, scratch, chunk=None, timeout=1500, env=None,
         ee = dict(env or {})
         ee["TRACE"] = paths[k]
         r = run_tlc(module, env=ee, workdir=scratch.dir, timeout=timeout, deque=deque)
-        if not r.ok or r.depth - 1 != len(chunks[k]):
+        if not r.ok or r.depth - depth_offset != len(chunks[k]):
             tlc_failed(r, "%s chunk %d (%d events, depth %d)" % (module, k, len(chunks[k]), r.depth))
         return r
 
@@ -282,7 +287,7 @@ def validate_events(events, module, scratch, chunk=None, timeout=1500, env=None,
     stats = {"states": 0, "transitions": 0, "tlc_runs": len(rs), "actions": {}, "tlc_wall_s": 0.0}
     for k, r in enumerate(rs):
         for i, x in r.rejects:
-            rejected[k * chunk + i - 1] = x
+            rejected[(k * chunk + i - 1) if chunk else (k, i - 1)] = x
         stats["states"] += r.distinct
         stats["transitions"] += r.generated
         stats["tlc_wall_s"] = round(stats["tlc_wall_s"] + r.wall, 1)
